@@ -5,6 +5,7 @@ package c03scen
 
 import (
 	"fmt"
+	"io"
 	"net/http"
 	"net/url"
 	"sort"
@@ -55,6 +56,15 @@ var Kinds = []Req{
 	{"HEAD", "/a"}, {"GET", "/bu/1"}, {"GET", "/bu/2"},
 	// a path that is not in normal form (normalised on every request)
 	{"GET", "//b/"},
+	// a second dynamic route in the lookup bucket of /u/{id}; a form post and a query request bound by Context.Bind
+	// (two different binders of pkg/binding)
+	{"GET", "/u/1/z"}, {"POST", "/bind"}, {"GET", "/bind?q=x&age=4"},
+}
+
+// bindForm is what the /bind route binds (the form binder and the query binder read different tags)
+type bindForm struct {
+	Name string `form:"name" query:"q"`
+	Age  int    `form:"age" query:"age"`
 }
 
 // kept holds, per request, the Copy() of the context its handler kept beyond the request
@@ -133,6 +143,14 @@ func Build(s Shape) *rux.Router {
 	// two methods each, so that a 405 probe for another method resolves (and caches) the route twice
 	route("/u/{id}", "U", "GET", "DELETE")
 	route("/{x}/y", "XY", "GET", "PUT")
+	route("/u/{id}/z", "UZ", "GET")
+	r.Add("/bind", func(c *rux.Context) {
+		Yield()
+		var f bindForm
+		err := c.Bind(&f)
+		Yield()
+		c.WriteString(fmt.Sprintf("[BIND %s err=%v %+v]", c.Req.Method, err, f))
+	}, "GET", "POST")
 	if s.GroupMW > 0 {
 		var gm []rux.HandlerFunc
 		for i := 0; i < s.GroupMW; i++ {
@@ -210,6 +228,13 @@ func (w *Rec) Write(b []byte) (int, error) {
 func Serve(r http.Handler, q Req) (obs string) {
 	w := NewRec()
 	req := &http.Request{Method: q.Method, URL: &url.URL{Path: q.Path}, Header: http.Header{}, Proto: "HTTP/1.1", ProtoMajor: 1, ProtoMinor: 1}
+	if i := strings.IndexByte(q.Path, '?'); i >= 0 {
+		req.URL.Path, req.URL.RawQuery = q.Path[:i], q.Path[i+1:]
+	}
+	if q.Method == "POST" && q.Path == "/bind" {
+		req.Header.Set("Content-Type", "application/x-www-form-urlencoded")
+		req.Body = io.NopCloser(strings.NewReader("name=n&age=3"))
+	}
 	defer func() {
 		if p := recover(); p != nil {
 			obs = fmt.Sprintf("PANIC: %v", p)
